@@ -149,6 +149,13 @@ fn value_checks(s: &mut Sink) {
         one("Interval<f64>", &Interval::UpperOneSided(a), !a.is_finite(), s);
         one("Interval<f64>", &Interval::LowerOneSided(a), !a.is_finite(), s);
     }
+    // values of the type that the fallible constructors would refuse but that the public
+    // variants (and relative_to with a negative reference) can produce: a round trip is
+    // claimed for every value reachable by the API, so these too must come back unchanged
+    one("Interval<f64>", &Interval::TwoSided(3.0, 1.0), false, s);
+    one("Interval<f64>", &Interval::TwoSided(-2.0, -2.5), false, s);
+    one("Interval<i32>", &Interval::TwoSided(5, -5), false, s);
+    one("Interval<String>", &Interval::TwoSided("b".to_string(), "a".to_string()), false, s);
     let iv = [i32::MIN, -7, 0, 3, i32::MAX];
     for (i, &a) in iv.iter().enumerate() {
         for &b in &iv[i..] {
